@@ -443,16 +443,12 @@ theorem method_high (n : Nat) (d : Dep) (o : Op) (P : PB) (r : Opd) (hr : isHigh
   | div =>
     simp only [binop, PBox.div] at h
     simp only [method, pboxDiv, hone, oneOverPB]
-    cases hr1 : recip n Y with
-    | error e => rw [hr1] at h; cases h
-    | ok r1 =>
-      rw [hr1, ok_bind] at h
-      cases hr2 : numberOp n (· * ·) r1 1 with
-      | error e => rw [hr2] at h; cases h
-      | ok r2 =>
-        rw [hr2, ok_bind] at h
-        simp only [ok_bind, hr2, tryType, pure, Except.pure, pboxMul, convertPbox]
-        exact h
+    cases hr12 : (recip n Y >>= fun r => numberOp n (· * ·) r 1) with
+    | error e => rw [hr12] at h; simp at h
+    | ok r2 =>
+      rw [hr12] at h
+      simp only [hr12, tryType, ok_bind, pure, Except.pure, pboxMul, convertPbox]
+      exact h
 
 /-- `P.<op>(Interval)`: the interval is negated / inverted by INTERVAL arithmetic before it is
 converted; the result is the p-box operation on the converted interval -/
@@ -478,6 +474,24 @@ before any p-box is built) -/
 theorem method_div_zero (n : Nat) (d : Dep) (P : PB) (a b : Rat) (hz : a ≤ 0 ∧ 0 ≤ b) :
     method n .div d P (.ivl a b) = .error .ZeroDivision := by
   simp [method, pboxDiv, oneOver, hz.1, hz.2]
+
+/-- the explicit-dependency method with an `Interval` argument, `I.to_pbox().<op>(J, dependency=d)`:
+the embedding of the C01 result `I op J`, for every operation and dependency -/
+theorem ivl_method_embeds (n : Nat) (hn : 0 < n) (dep : Dep) (hd : dep ≠ .unknown) (o : Op)
+    (a b c d lo hi : Rat) (hab : a ≤ b) (hcd : c ≤ d)
+    (h : Arith.binop (toArith o) (.I a b) (.I c d) = .ok (.I lo hi)) :
+    method n o dep (ofIvl n a b) (.ivl c d) = .ok (ofIvl n lo hi) := by
+  have h0 : o = .div → (0 < c ∨ d < 0) := by
+    intro ho; subst ho
+    by_contra hz
+    have hz' : c ≤ 0 ∧ 0 ≤ d := by
+      constructor
+      · by_contra h1; exact hz (Or.inl (not_le.mp h1))
+      · by_contra h1; exact hz (Or.inr (not_le.mp h1))
+    rw [toArith, arith_div_zero a b c d hz'] at h; cases h
+  rw [method_ivl n hn dep o (ofIvl n a b) c d hcd h0]
+  exact embed_op n hn dep hd o a b c d lo hi hab hcd h
+
 
 /-- **Mixed expression = converted-first expression, left operand p-box-like** (`Pbox op Interval`,
 `Pbox op Distribution`, `DSS op Pbox`, `Distribution op DSS`, …, all four operations, any dependency
